@@ -71,6 +71,29 @@ fn special_points() -> Vec<(f64, f64)> {
         (-93.0, 0.0),
         (87.0, 0.0),
     ];
+    // seams between faces: meridians on which two face centres are exactly equidistant by
+    // symmetry (theta = 18 + 36k degrees, longitude = theta - 93), and midpoints of face pairs
+    for k in 0..10 {
+        let lon = 18.0 + 36.0 * k as f64 - 93.0;
+        for lat in [0.0, 10.0, -10.0, 26.0, -26.0, 45.0, -45.0, 58.0] {
+            v.push((lon, lat));
+        }
+    }
+    {
+        let o = a5::core::origin::get_origins();
+        for i in 0..o.len() {
+            for j in (i + 1)..o.len() {
+                let (a, b) = (to_cartesian(o[i].axis), to_cartesian(o[j].axis));
+                let d = a.x() * b.x() + a.y() * b.y() + a.z() * b.z();
+                if d > 0.3 {
+                    // adjacent faces: the point half-way between their centres lies on the seam
+                    let m = a5::coordinate_systems::Cartesian::new(a.x() + b.x(), a.y() + b.y(), a.z() + b.z());
+                    let ll = to_lon_lat(a5::core::coordinate_transforms::to_spherical(m));
+                    v.push((ll.longitude(), ll.latitude()));
+                }
+            }
+        }
+    }
     // face centres and points close to them (seams and vertices lie between them)
     for o in a5::core::origin::get_origins() {
         let ll = to_lon_lat(o.axis);
@@ -182,7 +205,7 @@ pub fn build(seed: u64, size: usize) -> Pool {
         }
     }
     for &(lon, lat) in points.iter().take(12) {
-        for res in [-5, 30, 31, 64, 1000] {
+        for res in [-5, 30, 31, 64, 1000, 1025, 5000, 100000] {
             push_poison(&mut ops, Op::LonLatToCell { lon: F::of(lon), lat: F::of(lat), res }, 255, "resolution_out_of_range");
         }
     }
